@@ -137,6 +137,13 @@ def run_cli(argv, inputs, workdir, keep=False, want_stdout=False):
         except BaseException as e:  # noqa
             res.exit = -1
             res.exception = e
+            # where it was raised: the deepest frame inside the cutadapt package (used to attribute a crash)
+            try:
+                import traceback as _tb
+                frames = [f for f in _tb.extract_tb(e.__traceback__) if "/cutadapt/" in f.filename]
+                res.crash_site = (os.path.basename(frames[-1].filename) + ":" + frames[-1].name) if frames else ""
+            except Exception:  # noqa
+                res.crash_site = ""
     finally:
         os.chdir(cwd)
         try:
